@@ -598,3 +598,277 @@ Proof.
   destruct (ws_frames_run cfg (mkWs SHead true [p]) frs) as [s2 e2].
   cbn [app]. destruct T as (A & B & C & _). rewrite A. cbn [concat app]. auto.
 Qed.
+
+(* ---- from complete frames down to bytes ---- *)
+Lemma ws_read_finish_stage cfg inmsg rxq :
+  w_stage (fst (ws_read_finish cfg inmsg rxq)) = SHead.
+Proof.
+  unfold ws_read_finish. destruct (c_isstream cfg); [reflexivity|].
+  destruct inmsg; [reflexivity|]. destruct rxq; reflexivity.
+Qed.
+
+Lemma ws_frame_cb_stage_out cfg s op final payload :
+  w_stage (fst (ws_frame_cb cfg s op final payload)) = SHead \/
+  w_stage (fst (ws_frame_cb cfg s op final payload)) = SHalt.
+Proof.
+  unfold ws_frame_cb.
+  repeat match goal with
+         | |- context [if ?c then _ else _] => destruct c
+         end; try (right; reflexivity); try (left; reflexivity); left; apply ws_read_finish_stage.
+Qed.
+
+(* the size limits hold for every frame of the run *)
+Fixpoint admitted_along (cfg : ws_cfg) (s : ws_state) (frs : list (N * bool * list byte)) : Prop :=
+  match frs with
+  | [] => True
+  | f :: r =>
+      match w_stage s with
+      | SHalt => True
+      | _ => frame_admitted cfg s (N.of_nat (length (fr_payload f))) /\
+             admitted_along cfg (fst (ws_frame_cb cfg s (fr_op f) (fr_final f) (fr_payload f))) r
+      end
+  end.
+
+Definition frames_encodable (keys : list (list byte)) (frs : list (N * bool * list byte)) : Prop :=
+  Forall (fun f => fr_op f < 128 /\ N.of_nat (length (fr_payload f)) < 2 ^ 64) frs /\
+  (length frs <= length keys)%nat /\ Forall (fun k => length k = 4%nat) keys.
+
+Lemma ws_frames_run_halted cfg s frs : w_stage s = SHalt -> ws_frames_run cfg s frs = (s, []).
+Proof. intros H. destruct frs; cbn [ws_frames_run]; [reflexivity|]. rewrite H. reflexivity. Qed.
+
+Lemma ws_feed_frames cfg : forall frs keys s,
+  w_stage s = SHead -> frames_encodable keys frs -> admitted_along cfg s frs ->
+  ws_feed cfg (mkD s []) (ws_encode_frames (negb (c_server cfg)) keys frs) =
+    let '(s1, e1) := ws_frames_run cfg s frs in (mkD s1 [], e1).
+Proof.
+  induction frs as [|f frs IH]; intros keys s Hs (Hf & Hk & Hk4) Ha.
+  - cbn [ws_encode_frames ws_frames_run]. apply ws_feed_nil.
+  - destruct f as [[op final] p]. cbn [ws_encode_frames ws_frames_run]. rewrite Hs.
+    cbn [admitted_along] in Ha. rewrite Hs in Ha. cbn [fr_op fr_final fr_payload fst snd] in *.
+    destruct Ha as [Ha1 Ha2].
+    inversion Hf as [|? ? [Hop Hlen] Hf']; subst. cbn [fr_op fr_payload fst snd] in *.
+    destruct keys as [|k keys]; [cbn in Hk; lia|]. inversion Hk4 as [|? ? Hk0 Hk4']; subst.
+    cbn [hd tl]. rewrite ws_feed_app.
+    rewrite (ws_feed_frame cfg s k op final p Hs Hop Hk0 Hlen Ha1).
+    destruct (ws_frame_cb_stage_out cfg s op final p) as [St|St];
+      destruct (ws_frame_cb cfg s op final p) as [s1 e1]; cbn [fst] in *.
+    + assert (FE: frames_encodable keys frs) by (repeat split; auto; cbn in Hk; lia).
+      rewrite (IH keys s1 St FE Ha2).
+      destruct (ws_frames_run cfg s1 frs) as [s2 e2]. reflexivity.
+    + rewrite ws_feed_halted by exact St. rewrite ws_frames_run_halted by exact St.
+      cbn [d_inner]. reflexivity.
+Qed.
+
+(* with no configured limits every frame is admitted *)
+Lemma admitted_unlimited cfg : c_maxframe cfg = 0 -> c_recvmax cfg = 0 -> forall frs s,
+  Forall (fun f => N.of_nat (length (fr_payload f)) <= c_allocmax cfg) frs -> admitted_along cfg s frs.
+Proof.
+  intros M R. induction frs as [|f frs IH]; intros s H; cbn [admitted_along]; [exact I|].
+  inversion H; subst.
+  assert (A: frame_admitted cfg s (N.of_nat (length (fr_payload f)))).
+  { unfold frame_admitted. rewrite M, R. change (0 <? 0) with false.
+    rewrite !andb_false_r. cbn [andb]. split; [reflexivity|]. split; [reflexivity|].
+    apply orb_true_iff. right. apply N.leb_le. assumption. }
+  destruct (w_stage s); try exact I; (split; [exact A|apply IH; assumption]).
+Qed.
+
+(* ---- fragments of a send, run through the receive path of the peer ---- *)
+Lemma ws_fragment_run cfg send_text fragsize : c_isstream cfg = false ->
+  (send_text = true -> c_recv_text cfg = true) ->
+  forall fuel count data q, (length data < fuel)%nat -> (count = 0 -> q = []) ->
+  let '(s1, e1) := ws_frames_run cfg (mkWs SHead (negb (count =? 0)) q)
+                     (ws_fragment fuel false send_text fragsize count data) in
+  deliveries e1 = [concat q ++ data] /\ w_stage s1 = SHead /\ w_inmsg s1 = false /\ w_rxq s1 = [].
+Proof.
+  intros Hm Ht. induction fuel as [|f IH]; intros count data q Hf Hq; [lia|].
+  cbn [ws_fragment].
+  (* what the frame callback does with a data frame of this position *)
+  assert (K: forall final p,
+    ws_frame_cb cfg (mkWs SHead (negb (count =? 0)) q)
+      (if count =? 0 then (if send_text then WS_TEXT else WS_BINARY) else WS_CONT) final p =
+    ws_read_finish cfg (negb final) (q ++ [p])).
+  { intros final p. unfold ws_frame_cb. cbn [w_inmsg w_rxq]. destruct (count =? 0) eqn:Z; cbn [negb].
+    - destruct send_text.
+      + rewrite (Ht eq_refl). cbn. destruct final; reflexivity.
+      + cbn. destruct final; reflexivity.
+    - cbn. destruct final; reflexivity. }
+  destruct ((fragsize <? N.of_nat (length data)) && (0 <? fragsize)) eqn:E.
+  - apply andb_true_iff in E. destruct E as [E1 E2]. apply N.ltb_lt in E1, E2.
+    cbn [ws_frames_run w_stage fr_op fr_final fr_payload fst snd]. rewrite K.
+    unfold ws_read_finish. rewrite Hm. cbn [negb].
+    assert (L: (length (skipn (N.to_nat fragsize) data) < f)%nat) by (rewrite skipn_length; lia).
+    specialize (IH (count + fragsize) (skipn (N.to_nat fragsize) data) (q ++ [firstn (N.to_nat fragsize) data]) L).
+    replace (count + fragsize =? 0) with false in IH by (symmetry; apply N.eqb_neq; lia). cbn [negb] in IH.
+    specialize (IH ltac:(intros; lia)).
+    destruct (ws_frames_run cfg (mkWs SHead true (q ++ [firstn (N.to_nat fragsize) data]))
+                (ws_fragment f false send_text fragsize (count + fragsize) (skipn (N.to_nat fragsize) data))) as [s2 e2].
+    cbn [app]. destruct IH as (A & B). split; [|exact B].
+    rewrite A. rewrite concat_app. cbn [concat]. rewrite app_nil_r, <- app_assoc, firstn_skipn. reflexivity.
+  - cbn [ws_frames_run w_stage fr_op fr_final fr_payload fst snd]. rewrite K.
+    unfold ws_read_finish. rewrite Hm. cbn [negb].
+    destruct (q ++ [data]) eqn:Q; [destruct q; discriminate|]. rewrite <- Q.
+    cbn. rewrite concat_app. cbn [concat]. rewrite !app_nil_r. auto.
+Qed.
+
+(* ---- whole well-formed frame sequences: several messages, control frames anywhere ---- *)
+Lemma ws_frames_run_app cfg : forall a b s,
+  ws_frames_run cfg s (a ++ b) =
+    let '(s1, e1) := ws_frames_run cfg s a in let '(s2, e2) := ws_frames_run cfg s1 b in (s2, e1 ++ e2).
+Proof.
+  induction a as [|f a IH]; intros b s.
+  - cbn [app ws_frames_run]. destruct (ws_frames_run cfg s b). reflexivity.
+  - cbn [app ws_frames_run]. destruct (w_stage s) eqn:St;
+      try (destruct (ws_frame_cb cfg s (fr_op f) (fr_final f) (fr_payload f)) as [s1 e1]; rewrite IH;
+           destruct (ws_frames_run cfg s1 a) as [s2 e2]; destruct (ws_frames_run cfg s2 b) as [s3 e3];
+           rewrite app_assoc; reflexivity).
+    rewrite ws_frames_run_halted by exact St. reflexivity.
+Qed.
+
+Definition data_op (cfg : ws_cfg) (op : N) : Prop := op = WS_BINARY \/ (op = WS_TEXT /\ c_recv_text cfg = true).
+
+Inductive msg_seq (cfg : ws_cfg) : list (N * bool * list byte) -> list (list byte) -> Prop :=
+| MS_nil : msg_seq cfg [] []
+| MS_ctl f frs ms : is_small_control f = true -> msg_seq cfg frs ms -> msg_seq cfg (f :: frs) ms
+| MS_single op p frs ms : data_op cfg op -> msg_seq cfg frs ms -> msg_seq cfg ((op, true, p) :: frs) (p :: ms)
+| MS_frag op p tail ps frs ms : data_op cfg op -> msg_tail tail ps -> msg_seq cfg frs ms ->
+    msg_seq cfg ((op, false, p) :: tail ++ frs) ((p ++ concat ps) :: ms).
+
+Lemma data_frame_cb cfg op final p : c_isstream cfg = false -> data_op cfg op ->
+  ws_frame_cb cfg (mkWs SHead false []) op final p =
+    if final then (mkWs SHead false [], [EDeliver p]) else (mkWs SHead true [p], []).
+Proof.
+  intros Hm [-> | [-> Ht]]; unfold ws_frame_cb, ws_read_finish; cbn; rewrite ?Ht, Hm; cbn;
+    destruct final; cbn; rewrite ?app_nil_r; reflexivity.
+Qed.
+
+Lemma ws_sequence_reassembles cfg : c_isstream cfg = false -> forall frs ms, msg_seq cfg frs ms ->
+  let '(s1, e1) := ws_frames_run cfg (mkWs SHead false []) frs in
+  deliveries e1 = ms /\ s1 = mkWs SHead false [].
+Proof.
+  intros Hm frs ms H. induction H as [| f frs ms Hc H IH | op p frs ms Ho H IH | op p tail ps frs ms Ho Ht H IH].
+  - cbn. auto.
+  - cbn [ws_frames_run w_stage].
+    assert (K: exists e, ws_frame_cb cfg (mkWs SHead false []) (fr_op f) (fr_final f) (fr_payload f) =
+                         (mkWs SHead false [], e) /\ deliveries e = []).
+    { unfold is_small_control in Hc. apply andb_true_iff in Hc. destruct Hc as [Ho Hl].
+      apply N.leb_le in Hl. unfold ws_frame_cb.
+      apply orb_true_iff in Ho. destruct Ho as [Ho|Ho]; apply N.eqb_eq in Ho; rewrite Ho; cbn;
+        replace (125 <? N.of_nat (length (fr_payload f))) with false by (symmetry; apply N.ltb_ge; lia);
+        eexists; split; reflexivity. }
+    destruct K as (e & K & Ke). rewrite K.
+    destruct (ws_frames_run cfg (mkWs SHead false []) frs) as [s2 e2].
+    unfold deliveries in *. rewrite flat_map_app, Ke. exact IH.
+  - cbn [ws_frames_run w_stage fr_op fr_final fr_payload fst snd]. rewrite (data_frame_cb cfg op true p Hm Ho).
+    destruct (ws_frames_run cfg (mkWs SHead false []) frs) as [s2 e2].
+    destruct IH as [A B]. unfold deliveries in *. cbn [app flat_map]. rewrite A. auto.
+  - cbn [ws_frames_run w_stage fr_op fr_final fr_payload fst snd]. rewrite (data_frame_cb cfg op false p Hm Ho).
+    rewrite ws_frames_run_app.
+    pose proof (ws_tail_reassembles cfg Hm tail ps Ht SHead [p] ltac:(discriminate)) as T.
+    destruct (ws_frames_run cfg (mkWs SHead true [p]) tail) as [s2 e2].
+    destruct T as (A & B & C & D).
+    assert (S2: s2 = mkWs SHead false []) by (destruct s2; cbn in *; subst; reflexivity).
+    rewrite S2. destruct (ws_frames_run cfg (mkWs SHead false []) frs) as [s3 e3].
+    destruct IH as [A3 B3]. cbn [app]. unfold deliveries in *. rewrite flat_map_app, A, A3. cbn. auto.
+Qed.
+
+(* ---- what the encoder emits satisfies the independent grammar (CodecSpec.wf_ws_frame) ---- *)
+Lemma lor128_add : forall b, b < 128 -> N.lor b 128 = 128 + b.
+Proof.
+  intros b H.
+  assert (Q: forallb (fun b => N.lor b 128 =? 128 + b) (map N.of_nat (seq 0 128)) = true) by (vm_compute; reflexivity).
+  apply N.eqb_eq. exact (forall_below 128 _ Q b H).
+Qed.
+
+Lemma lxor_byte : forall a b, a < 256 -> b < 256 -> N.lxor a b < 256.
+Proof.
+  intros a b Ha Hb.
+  assert (Q: forallb (fun a => forallb (fun b => N.lxor a b <? 256) (map N.of_nat (seq 0 256)))
+               (map N.of_nat (seq 0 256)) = true) by (vm_compute; reflexivity).
+  pose proof (forall_below 256 _ Q a Ha) as P. cbv beta in P.
+  apply N.ltb_lt. exact (forall_below 256 _ P b Hb).
+Qed.
+
+Lemma nth_bytes_ok key i : bytes_ok key -> nth i key 0 < 256.
+Proof.
+  intros H. destruct (Nat.lt_ge_cases i (length key)) as [L|L].
+  - unfold bytes_ok in H. rewrite Forall_forall in H. apply H. apply nth_In. exact L.
+  - rewrite nth_overflow by exact L. lia.
+Qed.
+
+Lemma mask_from_ok key : bytes_ok key -> forall l i, bytes_ok l -> bytes_ok (mask_from i key l).
+Proof.
+  intros Hk. induction l as [|b l IH]; intros i H; cbn [mask_from]; [constructor|].
+  inversion H; subst. constructor; [|apply IH; assumption].
+  apply lxor_byte; [assumption|apply nth_bytes_ok; exact Hk].
+Qed.
+
+Lemma ws_hdr_shape op final len : op < 128 -> len < 2 ^ 63 ->
+  exists len7 ext, ws_hdr op final len = [(if final then 1 else 0) * 128 + op; len7] ++ ext /\ len7 < 128 /\
+    (len7 < 126 -> ext = [] /\ len = len7) /\
+    (len7 = 126 -> length ext = 2%nat /\ be_dec ext = len /\ 126 <= len) /\
+    (len7 = 127 -> length ext = 8%nat /\ be_dec ext = len /\ 65536 <= len) /\ bytes_ok ext.
+Proof.
+  intros Hop Hlen.
+  assert (B0: (if final then N.lor op 128 else op) = (if final then 1 else 0) * 128 + op).
+  { destruct final; [rewrite lor128_add by exact Hop; lia|lia]. }
+  assert (H64: len < 2 ^ 64) by (eapply N.lt_trans; [exact Hlen|reflexivity]).
+  unfold ws_hdr. rewrite B0.
+  destruct (len <? 126) eqn:E1.
+  - apply N.ltb_lt in E1. exists len, []. rewrite land_127 by lia.
+    split; [reflexivity|]. split; [lia|]. split; [auto|]. split; [lia|]. split; [lia|constructor].
+  - apply N.ltb_ge in E1. destruct (len <? 65536) eqn:E2.
+    + apply N.ltb_lt in E2. exists 126, (be_enc 2 len). rewrite land_65535 by exact E2.
+      split; [reflexivity|]. split; [lia|]. split; [lia|]. split.
+      * intros _. rewrite be_enc_length, be_dec_enc_small by (simpl; lia). auto.
+      * split; [lia|apply be_enc_ok].
+    + apply N.ltb_ge in E2. exists 127, (be_enc 8 len).
+      split; [reflexivity|]. split; [lia|]. split; [lia|]. split; [lia|]. split.
+      * intros _. rewrite be_enc_length, be_dec_enc_small by (simpl; lia). auto.
+      * apply be_enc_ok.
+Qed.
+
+Lemma ws_encode_wf (server : bool) (key : list byte) (op : N) (final : bool) (payload : list byte) :
+  ws_known_op op -> (8 <= op -> final = true /\ N.of_nat (length payload) <= 125) ->
+  N.of_nat (length payload) < 2 ^ 63 -> bytes_ok payload -> bytes_ok key -> length key = 4%nat ->
+  wf_ws_frame server (ws_encode server key op final payload).
+Proof.
+  intros Hop Hctl Hlen Hp Hk Hk4.
+  assert (Hop128: op < 128) by (unfold ws_known_op in Hop; cbn in Hop; intuition lia).
+  destruct (ws_hdr_shape op final _ Hop128 Hlen) as (len7 & ext & E & L7 & S7 & S16 & S64 & Eok).
+  unfold ws_encode. cbv zeta. rewrite E. unfold wf_ws_frame.
+  exists (if final then 1 else 0), op, len7, ext.
+  assert (Common: (if final then 1 else 0) < 2 /\ ws_known_op op /\ len7 < 128) by (destruct final; repeat split; auto; lia).
+  assert (Ctl: 8 <= op -> (if final then 1 else 0) = 1 /\ len7 <= 125).
+  { intros H8. destruct (Hctl H8) as [-> Hl]. split; [reflexivity|].
+    destruct (N.lt_ge_cases len7 126) as [A|A]; [lia|].
+    destruct (N.eq_dec len7 126) as [B|B]; [destruct (S16 B) as (_ & _ & C); lia|].
+    assert (B7: len7 = 127) by lia. destruct (S64 B7) as (_ & _ & C). lia. }
+  assert (B0ok: (if final then 1 else 0) * 128 + op < 256) by (destruct final; lia).
+  destruct server.
+  - exists [], payload. cbn [app].
+    assert (Bok: bytes_ok (((if final then 1 else 0) * 128 + op) :: (0 + len7) :: ext ++ payload)).
+    { unfold bytes_ok. constructor; [exact B0ok|]. constructor; [lia|].
+      apply Forall_app. split; [exact Eok|exact Hp]. }
+    split; [reflexivity|]. destruct Common as (A & B & C). repeat split; auto.
+    all: try match goal with
+      | H : _ < 126 |- _ => destruct (S7 H) as [? ?]
+      | H : _ = 126 |- _ => destruct (S16 H) as (? & ? & ?)
+      | H : _ = 127 |- _ => destruct (S64 H) as (? & ? & ?)
+      | H : 8 <= _ |- _ => destruct (Ctl H) as [? ?]
+      end; auto; try congruence; try lia.
+  - exists key, (mask_bytes key payload). cbn [set_mask_bit app].
+    rewrite lor128_add by exact L7. rewrite firstn_all2 by lia.
+    assert (Bok: bytes_ok (((if final then 1 else 0) * 128 + op) :: (128 + len7) :: ext ++ key ++ mask_bytes key payload)).
+    { unfold bytes_ok. constructor; [exact B0ok|]. constructor; [lia|].
+      apply Forall_app. split; [exact Eok|]. apply Forall_app. split; [exact Hk|].
+      apply mask_from_ok; assumption. }
+    split; [reflexivity|]. rewrite mask_bytes_length.
+    destruct Common as (A & B & C). repeat split; auto.
+    all: try match goal with
+      | H : _ < 126 |- _ => destruct (S7 H) as [? ?]
+      | H : _ = 126 |- _ => destruct (S16 H) as (? & ? & ?)
+      | H : _ = 127 |- _ => destruct (S64 H) as (? & ? & ?)
+      | H : 8 <= _ |- _ => destruct (Ctl H) as [? ?]
+      end; auto; try congruence; try lia.
+Qed.
+
